@@ -161,6 +161,9 @@ def header (w : World) (t : List String) : Option World :=
   | ["dir", name, path] => do
     let h ← findHandler w name
     pure (setHandlerSt w (setFs h ((fsOf h).set path .dir)))
+  | ["rm", name, path] => do         -- the user deletes a file behind the handler's back
+    let h ← findHandler w name
+    pure (setHandlerSt w (setFs h ((fsOf h).del path)))
   | ["clock", ms] => do pure { w with now := ← ms.toNat? }
   | _ => none
 
@@ -336,7 +339,7 @@ def stepLine (d : DSt) (t : List String) : DSt × String :=
   | _ =>
     match t.head? with
     | some k =>
-      if k == "P" || k == "H" || k == "R" || k == "F" || k == "file" || k == "dir" || k == "clock" then
+      if k == "P" || k == "H" || k == "R" || k == "F" || k == "file" || k == "dir" || k == "rm" || k == "clock" then
         match header d.w t with
         | some w => ({ d with w := w }, "ok")
         | none => (d, "bad-op")
